@@ -1,6 +1,7 @@
 package num
 
 import (
+	"math"
 	"fmt"
 	"sync"
 	"go/token"
@@ -1065,6 +1066,27 @@ func (e *Engine) boolBinop(st *State, x *ssa.BinOp) {
 }
 
 func (e *Engine) convert(fr *frame, st *State, x *ssa.Convert) {
+	// float upper bounds travel through float conversions and into integers
+	if isFloat(x.X.Type()) {
+		if b, ok := st.fub[e.vid(x.X)]; ok {
+			if isFloat(x.Type()) {
+				if st.fub == nil {
+					st.fub = map[string]FBound{}
+				}
+				st.fub[e.vid(x)] = b
+			} else if isInt(x.Type()) {
+				e.fresh(st, x)
+				hi := math.Floor(b.Val)
+				if b.Strict && hi == b.Val {
+					hi--
+				}
+				if hi >= 0 && hi < 1<<52 {
+					st.Assume(Const(int64(hi)).Sub(Var(e.atomOf(x))))
+				}
+				return
+			}
+		}
+	}
 	switch {
 	case isInt(x.Type()) && isInt(x.X.Type()):
 		if e.ConvertHook != nil && fr != nil && fr.check {
